@@ -154,7 +154,11 @@ KINDS = {
     "N": rs("c8/has", [["varint", "v"], ["string", "tag"]], ["3", "'n'"]),
     "O": rs("c8/other", [["string", "w"]], ["'o'"]),
     "F": rs("c8/has", [["string", "tag"]], ["'f'"]),
+    # grouped records: one Python class whatever the members are - "P" has no member with v, "Q" has v == 7 (in its second member)
+    "P": {"group": "c8/grp", "members": [rs("c8/other", [["string", "w"]], ["'o'"]), rs("c8/has", [["string", "tag"]], ["'f'"])]},
+    "Q": {"group": "c8/grp", "members": [rs("c8/other", [["string", "w"]], ["'o'"]), rs("c8/has", [["varint", "v"], ["string", "tag"]], ["7", "'m'"])]},
 }
+VAL = {"M": 7, "N": 3, "Q": 7}
 # selectors that are true for a record *without* going through the missing field (a reader may not pre-filter by field names)
 STREAM_EXPRS = [
     "r.v > 5 or name(r) == 'c8/other'", "r.v > 5 or has_field(r, 'w')", "r.v > 5 or Type.string == 'o'", "r.v > 5 or True",
@@ -181,10 +185,10 @@ def run_stream(case):
         keep = None
     elif op in ("in", "not in"):
         expr = "r.v %s [7, 8]" % op
-        keep = lambda k: (k == "M") if op == "in" else (k == "N")  # noqa: E731
+        keep = lambda k: (VAL.get(k) == 7) if op == "in" else (VAL.get(k) == 3)  # noqa: E731
     else:
         expr = "r.v %s 5" % op
-        keep = lambda k: k in ("M", "N") and py_cmp(op, 7 if k == "M" else 3, 5)  # noqa: E731
+        keep = lambda k: k in VAL and py_cmp(op, VAL[k], 5)  # noqa: E731
     if keep is not None:
         keepflags = [keep(k) for k in seq]
     expected = obs_list([r for r, f in zip(records, keepflags) if f])
@@ -268,7 +272,7 @@ def run_stream(case):
                 pass
     seen = set()
     v2 = [v for v in viol if not (v[0] in seen or seen.add(v[0]))]
-    return {"ev": 7, "h": h, "nt": any(k in ("O", "F") for k in seq), "out": "stream:" + "/".join(sorted(set(outs))), "viol": v2,
+    return {"ev": 7, "h": h, "nt": any(k in ("O", "F", "P") for k in seq), "out": "stream:" + "/".join(sorted(set(outs))), "viol": v2,
             "sample": case if int(h, 16) % 997 == 0 else None}
 
 
@@ -301,6 +305,11 @@ def cases(tier):
             if k <= 3:
                 for e in STREAM_EXPRS:
                     yield {"kind": "stream", "seq": list(seq), "op": "expr:" + e}
+    for k in (1, 2, 3):
+        for seq in itertools.product("MOPQ", repeat=k):
+            if "P" in seq or "Q" in seq:
+                for op in OPS:
+                    yield {"kind": "stream", "seq": list(seq), "op": op}
 
 
 def main(tier, seed, workers=None):
